@@ -58,6 +58,7 @@ type docGen struct {
 	// page URL given: relative media/link URLs
 	hideVariants []string
 	wrapIn       string // C03: place the generated forest inside li / blockquote / table cell
+	layoutNoise  bool   // list items / quotes / pre may carry display:inline-block (C07)
 	inlineJunk   bool   // inline formatting elements may hold hidden spans / scripts (C04)
 	noTitle      bool   // no <title> element (C09: the word-count clause needs pages without title)
 }
@@ -176,6 +177,14 @@ func (g *docGen) padded(n *cnode, w string) string {
 	return left + w + right
 }
 
+// layoutStyle: list items laid out in a row, pull quotes - an inline-block (or flex) box is still a box of its own
+func (g *docGen) layoutStyle() string {
+	if !g.layoutNoise || g.rng.Intn(5) != 0 {
+		return ""
+	}
+	return g.pick(` style="display:inline-block"`, ` style="display: inline-flex"`, ` style="display:inline-block; width:30%"`)
+}
+
 func (g *docGen) linkKids(kids []*cnode, parentK string) {
 	for i, c := range kids {
 		c.leftK, c.rightK = parentK, parentK
@@ -256,11 +265,11 @@ func (g *docGen) render(n *cnode) string {
 	case "OL":
 		return g.wrap("ol", "", g.kidsHTML(n))
 	case "LI":
-		return g.wrap("li", "", g.kidsHTML(n))
+		return g.wrap("li", g.layoutStyle(), g.kidsHTML(n))
 	case "BQ":
-		return g.wrap("blockquote", "", g.kidsHTML(n))
+		return g.wrap("blockquote", g.layoutStyle(), g.kidsHTML(n))
 	case "PRE":
-		return g.wrap("pre", "", g.kidsHTML(n))
+		return g.wrap("pre", g.layoutStyle(), g.kidsHTML(n))
 	case "HID":
 		switch g.pick("div", "p", "section", "div", "figure", "tweet") {
 		case "figure":
@@ -483,7 +492,17 @@ func (g *docGen) page(forest []*cnode, place string) string {
 		body.WriteString(g.render(n))
 	}
 	gen := body.String()
+	// "bare" placements: the children of the generated paragraph sit directly in the cell / item, without a p of their own
+	if (g.wrapIn == "tdbare" || g.wrapIn == "libare") && len(forest) == 1 && forest[0].k == "P" {
+		forest[0].k = map[string]string{"tdbare": "LT", "libare": "LI"}[g.wrapIn] // what the children face at the edges
+		gen = g.kidsHTML(forest[0])
+		forest[0].k = "P"
+	}
 	switch g.wrapIn {
+	case "tdbare":
+		gen = "<table><tr><td>" + gen + "</td><td>" + g.words(4) + "</td></tr></table>"
+	case "libare":
+		gen = "<ul><li>" + gen + "</li><li>" + g.words(12) + "</li></ul>"
 	case "li":
 		gen = "<ul><li>" + gen + "</li><li>" + g.words(12) + "</li></ul>"
 	case "bq":
